@@ -64,7 +64,9 @@ def fully_connect(
         .sample(num_pre, replace=True)
         .index.to_numpy()
     )
-    global_post_indices = global_post_indices.reshape((-1, num_pre), order="F").ravel()
+    # `sample()` returns `num_pre` compartments for each post cell (post-major). The
+    # presynaptic rows below are pre-major, so transpose.
+    global_post_indices = global_post_indices.reshape((num_post, num_pre)).T.ravel()
     post_rows = post_cell_view.nodes.loc[global_post_indices]
 
     # Pre-synapse is at the zero-eth branch and zero-eth compartment.
